@@ -136,6 +136,7 @@ def dispatch (j : Json) : Json :=
   | some "rename" => opRename j
   | some "compose" => opCompose j
   | some "solverparams" => opSolverParams j
+  | some "register" => opRegister j
   | some "wiring" => opWiring j
   | some "split" => opSplit j
   | some "prune" => opPrune j
